@@ -1,5 +1,412 @@
+//! C14 — results do not depend on the `parallel` feature or on the number of threads.
+//!
+//! The same binary is built twice: without the `par` cargo feature (serial library code) it is run
+//! with `--emit <file>` and writes a digest of the canonical serialization of every
+//! (operation, shape) output; built with `--features par` (every crate's `parallel` feature on) it
+//! is run with `--compare <file>`, recomputes every output inside rayon pools of many sizes (with
+//! and without a background CPU hog that perturbs work stealing) and compares digests.
+use ark_ec::{
+    pairing::Pairing,
+    scalar_mul::{variable_base::VariableBaseMSM, BatchMulPreprocessing},
+    AffineRepr, CurveGroup, PrimeGroup,
+};
+use ark_ff::{batch_inversion, batch_inversion_and_mul, FftField, PrimeField, UniformRand, Zero};
+use ark_poly::{
+    evaluations::multivariate::multilinear::{DenseMultilinearExtension, MultilinearExtension, SparseMultilinearExtension},
+    multivariate::{SparsePolynomial as MvPoly, SparseTerm, Term},
+    univariate::{DensePolynomial, SparsePolynomial},
+    DenseMVPolynomial, DenseUVPolynomial, EvaluationDomain, GeneralEvaluationDomain, MixedRadixEvaluationDomain, Polynomial,
+    Radix2EvaluationDomain,
+};
+use ark_serialize::{CanonicalDeserialize, CanonicalSerialize, Compress, Valid, Validate};
+use ark_std::rand::RngCore;
 use monitor::*;
+use std::collections::BTreeMap;
+use std::sync::atomic::{AtomicBool, Ordering};
+use std::sync::Arc;
+use std::time::Instant;
+
+use cfgs::shipped::{bls12_381, bw6_761, ed_on_bls12_381, mnt4_298, tc};
+type Fr = bls12_381::Fr;
+type Fm = tc::bn384_small_two_adicity::Fr; // mixed-radix field
+type G1 = bls12_381::G1Projective;
+type G1A = bls12_381::G1Affine;
+type Te = ed_on_bls12_381::EdwardsProjective;
+
+pub const RULE: &str = "cases = (operation with a parallel code path, input shape, thread-pool size t, repetition); shapes include lengths \
+t-1, t, t+1, 2t+1, 16t±1, 1024t±1 for every t in the pool-size list and lengths smaller than t; pool sizes {1,2,3,4,5,6,7,8,12,15,16,17,24,32,64}; \
+each output (canonical uncompressed serialization) is compared with the digest produced by the serial build for the same seeded input; \
+repetitions alternate with a background CPU-hog thread group to perturb work stealing; non-trivial = non-empty input; \
+distinct = digest of (operation, shape, t, repetition)";
+
+const THREADS: &[usize] = &[1, 2, 3, 4, 5, 6, 7, 8, 12, 15, 16, 17, 24, 32, 64];
+
+fn ser<T: CanonicalSerialize>(t: &T) -> Vec<u8> {
+    let mut v = vec![];
+    t.serialize_uncompressed(&mut v).expect("serialize");
+    v
+}
+
+type OpFn = Box<dyn Fn(&mut Rng, usize) -> Vec<u8> + Send + Sync>;
+struct Op {
+    name: &'static str,
+    shapes: Vec<usize>,
+    run: OpFn,
+}
+
+fn lens_around_threads(mult: usize, cap: usize) -> Vec<usize> {
+    let mut v = vec![0usize, 1, 2, 3];
+    for &t in THREADS {
+        for l in [t.saturating_sub(1), t, t + 1, 2 * t + 1, mult * t - 1, mult * t, mult * t + 1] {
+            if l <= cap {
+                v.push(l);
+            }
+        }
+    }
+    v.sort();
+    v.dedup();
+    v
+}
+
+fn rand_vec<F: UniformRand + Zero>(rng: &mut Rng, n: usize, zeros: bool) -> Vec<F> {
+    (0..n).map(|i| if zeros && i % 5 == 3 { F::zero() } else { F::rand(rng) }).collect()
+}
+
+fn fft_op<D: EvaluationDomain<F>, F: ark_ff::FftField>(rng: &mut Rng, shape: usize) -> Vec<u8> {
+    // shape encodes (log size, input-length class)
+    let (logn, cls) = (shape / 8, shape % 8);
+    let n = 1usize << logn;
+    let Some(d) = D::new(n) else { return vec![0xEE] };
+    let n = d.size();
+    let len = [n, n / 2, n / 4, (n / 4).saturating_sub(1), n / 4 + 1, n - 1, 1, 0][cls].min(n);
+    let coeffs: Vec<F> = rand_vec(rng, len, false);
+    let off = F::GENERATOR;
+    let c = d.get_coset(off).unwrap();
+    let e = d.fft(&coeffs);
+    let back = d.ifft(&e);
+    let ce = c.fft(&coeffs);
+    let cb = c.ifft(&ce);
+    let mut inplace = coeffs.clone();
+    d.fft_in_place(&mut inplace);
+    let mut out = ser(&e);
+    out.extend(ser(&back));
+    out.extend(ser(&ce));
+    out.extend(ser(&cb));
+    out.extend(ser(&inplace));
+    out.extend(ser(&d.elements().take(64).collect::<Vec<_>>()));
+    out
+}
+
+fn ops(quick: bool) -> Vec<Op> {
+    let mut v: Vec<Op> = vec![];
+    let max_log = if quick { 13 } else { 15 };
+    let fft_shapes: Vec<usize> = (1..=max_log).flat_map(|k| (0..8).map(move |c| k * 8 + c)).filter(|s| quick == false || (s % 8 < 5 || s / 8 <= 8)).collect();
+    v.push(Op { name: "radix2 fft/ifft/coset (bls12_381 Fr)", shapes: fft_shapes.clone(), run: Box::new(|r, s| fft_op::<Radix2EvaluationDomain<Fr>, Fr>(r, s)) });
+    let mixed_shapes: Vec<usize> = (1..=if quick { 10 } else { 12 }).flat_map(|k| [0usize, 2, 3, 4].into_iter().map(move |c| k * 8 + c)).collect();
+    v.push(Op { name: "mixed-radix fft/ifft/coset (bn384 Fr)", shapes: mixed_shapes.clone(), run: Box::new(|r, s| fft_op::<MixedRadixEvaluationDomain<Fm>, Fm>(r, s)) });
+    v.push(Op { name: "general domain fft/ifft/coset (bn384 Fr)", shapes: mixed_shapes, run: Box::new(|r, s| fft_op::<GeneralEvaluationDomain<Fm>, Fm>(r, s)) });
+    v.push(Op {
+        name: "distribute_powers_and_mul_by_const",
+        shapes: {
+            let mut l = lens_around_threads(1024, if quick { 20_000 } else { 70_000 });
+            l.extend([1023, 1024, 1025, 2047, 2048, 2049, 4097]);
+            l.sort();
+            l.dedup();
+            l
+        },
+        run: Box::new(|rng, n| {
+            let mut c: Vec<Fr> = rand_vec(rng, n, true);
+            let (g, k) = (Fr::rand(rng), Fr::rand(rng));
+            Radix2EvaluationDomain::<Fr>::distribute_powers_and_mul_by_const(&mut c, g, k);
+            let mut d: Vec<Fr> = rand_vec(rng, n.min(3000), false);
+            Radix2EvaluationDomain::<Fr>::distribute_powers(&mut d, g);
+            let mut out = ser(&c);
+            out.extend(ser(&d));
+            out
+        }),
+    });
+    v.push(Op {
+        name: "DensePolynomial::evaluate",
+        shapes: lens_around_threads(16, 1100),
+        run: Box::new(|rng, n| {
+            let p = DensePolynomial::<Fr>::from_coefficients_vec(rand_vec(rng, n, true));
+            let x = Fr::rand(rng);
+            ser(&vec![p.evaluate(&x), p.evaluate(&Fr::zero()), p.evaluate(&Fr::from(1u64))])
+        }),
+    });
+    v.push(Op {
+        name: "dense polynomial operators",
+        shapes: vec![0, 1, 2, 15, 16, 17, 63, 64, 65, 300],
+        run: Box::new(|rng, n| {
+            let p = DensePolynomial::<Fr>::from_coefficients_vec(rand_vec(rng, n, true));
+            let q = DensePolynomial::<Fr>::from_coefficients_vec(rand_vec(rng, (n * 3) / 4 + 1, false));
+            let d = Radix2EvaluationDomain::<Fr>::new(16).unwrap().get_coset(Fr::GENERATOR).unwrap();
+            let k = Fr::rand(rng);
+            let mut out = ser(&(&p + &q));
+            out.extend(ser(&(&p - &q)));
+            out.extend(ser(&(&p * k)));
+            out.extend(ser(&(&p * &q)));
+            out.extend(ser(&p.naive_mul(&q)));
+            out.extend(ser(&p.mul_by_vanishing_poly(d)));
+            let (qq, rr) = p.divide_by_vanishing_poly(d);
+            out.extend(ser(&qq));
+            out.extend(ser(&rr));
+            let mut t = p.clone();
+            t += (k, &q);
+            out.extend(ser(&t));
+            let ev = p.clone().evaluate_over_domain(d);
+            out.extend(ser(&ev.evals));
+            out.extend(ser(&ev.clone().interpolate()));
+            let ev2 = q.clone().evaluate_over_domain(d);
+            out.extend(ser(&(&ev + &ev2).evals));
+            out.extend(ser(&(&ev * &ev2).evals));
+            out.extend(ser(&(&ev - &ev2).evals));
+            let sp: SparsePolynomial<Fr> = q.clone().into();
+            out.extend(ser(&sp.evaluate(&k)));
+            out.extend(ser(&sp.evaluate_over_domain(d).evals));
+            out.extend(ser(&d.evaluate_all_lagrange_coefficients(k)));
+            out
+        }),
+    });
+    v.push(Op {
+        name: "batch_inversion / batch_inversion_and_mul",
+        shapes: lens_around_threads(1, 200),
+        run: Box::new(|rng, n| {
+            let mut a: Vec<Fr> = rand_vec(rng, n, true);
+            let mut b = a.clone();
+            let mut c: Vec<bls12_381::Fq2> = rand_vec(rng, n, true);
+            let k = Fr::rand(rng);
+            batch_inversion(&mut a);
+            batch_inversion_and_mul(&mut b, &k);
+            batch_inversion(&mut c);
+            let mut out = ser(&a);
+            out.extend(ser(&b));
+            out.extend(ser(&c));
+            out
+        }),
+    });
+    v.push(Op {
+        name: "msm (bls12_381 G1, ed_on_bls12_381)",
+        shapes: if quick { vec![0, 1, 2, 15, 31, 32, 33, 100, 513] } else { vec![0, 1, 2, 15, 31, 32, 33, 100, 513, 2048, 5000] },
+        run: Box::new(|rng, n| {
+            let bases: Vec<G1A> = (0..n).map(|i| if i % 7 == 6 { G1A::zero() } else { (G1A::generator() * Fr::rand(rng)).into_affine() }).collect();
+            let scalars: Vec<Fr> = rand_vec(rng, n, true);
+            let bigs: Vec<_> = scalars.iter().map(|s| s.into_bigint()).collect();
+            let mut out = ser(&G1::msm(&bases, &scalars).unwrap().into_affine());
+            out.extend(ser(&G1::msm_unchecked(&bases, &scalars).into_affine()));
+            out.extend(ser(&G1::msm_bigint(&bases, &bigs).into_affine()));
+            out.extend(ser(&ark_ec::scalar_mul::variable_base::verif_hooks::msm_bigint_plain::<G1>(&bases, &bigs).into_affine()));
+            let tb: Vec<ed_on_bls12_381::EdwardsAffine> = (0..n.min(200)).map(|_| (ed_on_bls12_381::EdwardsAffine::generator() * ed_on_bls12_381::Fr::rand(rng)).into_affine()).collect();
+            let ts: Vec<ed_on_bls12_381::Fr> = rand_vec(rng, n.min(200), true);
+            out.extend(ser(&Te::msm(&tb, &ts).unwrap().into_affine()));
+            out
+        }),
+    });
+    v.push(Op {
+        name: "BatchMulPreprocessing / batch_mul / normalize_batch",
+        shapes: lens_around_threads(1, 70),
+        run: Box::new(|rng, n| {
+            let g = G1::generator() * Fr::rand(rng);
+            let scalars: Vec<Fr> = rand_vec(rng, n, true);
+            let t = BatchMulPreprocessing::<G1>::new(g, n);
+            let mut out = ser(&t.batch_mul(&scalars));
+            out.extend(ser(&ark_ec::scalar_mul::ScalarMul::batch_mul(g, &scalars)));
+            let pts: Vec<G1> = scalars.iter().map(|s| g * s).collect();
+            out.extend(ser(&G1::normalize_batch(&pts)));
+            let tpts: Vec<Te> = (0..n).map(|_| Te::generator() * ed_on_bls12_381::Fr::rand(rng)).collect();
+            out.extend(ser(&Te::normalize_batch(&tpts)));
+            out
+        }),
+    });
+    v.push(Op {
+        name: "multi-pairing (bls12_381, mnt4_298, bw6_761)",
+        shapes: if quick { vec![0, 1, 4, 5, 9] } else { vec![0, 1, 2, 3, 4, 5, 8, 9, 13, 17] },
+        run: Box::new(|rng, n| {
+            fn mp<E: Pairing>(rng: &mut Rng, n: usize) -> Vec<u8> {
+                let ps: Vec<E::G1Affine> = (0..n).map(|i| if i % 5 == 4 { E::G1Affine::zero() } else { (E::G1::generator() * E::ScalarField::rand(rng)).into_affine() }).collect();
+                let qs: Vec<E::G2Affine> = (0..n).map(|i| if i % 7 == 6 { E::G2Affine::zero() } else { (E::G2::generator() * E::ScalarField::rand(rng)).into_affine() }).collect();
+                ser(&E::multi_pairing(ps, qs).0)
+            }
+            let mut out = mp::<bls12_381::Bls12_381>(rng, n);
+            out.extend(mp::<mnt4_298::MNT4_298>(rng, n.min(6)));
+            out.extend(mp::<bw6_761::BW6_761>(rng, n.min(9)));
+            out
+        }),
+    });
+    v.push(Op {
+        name: "Valid::batch_check / Vec<G1Affine> checked deserialization",
+        shapes: lens_around_threads(1, 40),
+        run: Box::new(|rng, n| {
+            let pts: Vec<G1A> = (0..n).map(|_| (G1A::generator() * Fr::rand(rng)).into_affine()).collect();
+            let ok = G1A::batch_check(pts.iter()).is_ok();
+            let mut bytes = vec![];
+            pts.serialize_compressed(&mut bytes).unwrap();
+            let back = Vec::<G1A>::deserialize_with_mode(&bytes[..], Compress::Yes, Validate::Yes);
+            // one bad element (on curve, outside the subgroup): the batch must be rejected regardless of scheduling
+            let mut bad = pts.clone();
+            let mut rejected = true;
+            if n > 0 {
+                let off = loop {
+                    let x = bls12_381::Fq::rand(rng);
+                    if let Some(p) = G1A::get_point_from_x_unchecked(x, false) {
+                        if !p.is_in_correct_subgroup_assuming_on_curve() {
+                            break p;
+                        }
+                    }
+                };
+                let idx = rng.next_u32() as usize % n;
+                bad[idx] = off;
+                rejected = G1A::batch_check(bad.iter()).is_err();
+            }
+            let mut out = vec![ok as u8, rejected as u8, back.is_ok() as u8];
+            if let Ok(b) = back {
+                out.extend(ser(&b));
+            }
+            out
+        }),
+    });
+    v.push(Op {
+        name: "multilinear extensions / multivariate evaluation",
+        shapes: vec![0, 1, 2, 3, 5, 8, 10, 12],
+        run: Box::new(|rng, nv| {
+            let d = DenseMultilinearExtension::<Fr>::rand(nv, rng);
+            let e = DenseMultilinearExtension::<Fr>::rand(nv, rng);
+            let pt: Vec<Fr> = rand_vec(rng, nv, false);
+            let mut out = ser(&d.fix_variables(&pt).to_evaluations());
+            out.extend(ser(&d.fix_variables(&pt[..nv / 2]).to_evaluations()));
+            out.extend(ser(&(&d + &e).to_evaluations()));
+            out.extend(ser(&(&d - &e).to_evaluations()));
+            out.extend(ser(&(-d.clone()).to_evaluations()));
+            if nv >= 2 {
+                out.extend(ser(&d.relabel(0, nv / 2, nv / 2).to_evaluations()));
+            }
+            let s = SparseMultilinearExtension::<Fr>::rand_with_config(nv, 1 << (nv / 2), rng);
+            out.extend(ser(&s.fix_variables(&pt).to_evaluations()));
+            out.extend(ser(&(&s + &s).to_evaluations()));
+            let terms: Vec<(Fr, SparseTerm)> = (0..(3 * nv + 1)).map(|i| (Fr::rand(rng), SparseTerm::new((0..nv).filter(|j| (i + j) % 3 == 0).map(|j| (j, 1 + (i + j) % 4)).collect()))).collect();
+            let mv = MvPoly::<Fr, SparseTerm>::from_coefficients_vec(nv, terms);
+            out.extend(ser(&mv.evaluate(&pt)));
+            out.extend(ser(&(&mv + &mv).evaluate(&pt)));
+            out
+        }),
+    });
+    v
+}
+
+fn digest_bytes(b: &[u8]) -> u64 {
+    digest(b)
+}
+
 fn main() {
     let args = Args::parse();
-    panic!("mon_par does not serve property {} yet", args.prop);
+    assert_eq!(args.prop, "C14");
+    let t0 = Instant::now();
+    install_panic_hook();
+    let emit = args.extra.get("emit").cloned();
+    let compare = args.extra.get("compare").cloned();
+    let par_build = cfg!(feature = "par");
+    let all = ops(args.quick());
+    let mut rep = Report::new();
+    rep.config(if par_build { "parallel build" } else { "serial build" });
+    if let Some(path) = emit {
+        if par_build {
+            rep.harness_errors.push("--emit must be run with the serial build".into());
+        }
+        let mut map: BTreeMap<String, String> = BTreeMap::new();
+        for op in &all {
+            for &s in &op.shapes {
+                let key = format!("{}#{}", op.name, s);
+                let mut rng = item_rng(args.seed, &key);
+                match guard(|| (op.run)(&mut rng, s)) {
+                    Ok(out) => {
+                        rep.eval(digest(&(key.as_str(), "serial")), s > 0);
+                        rep.op(op.name);
+                        map.insert(key, format!("{:016x}:{}", digest_bytes(&out), out.len()));
+                    },
+                    Err(p) => rep.violation(format!("par/{}/serial-panic", op.name), json!({"shape": s, "panic": p.msg, "at": p.site()})),
+                }
+            }
+        }
+        rep.sample("serial", || json!({"serial_digests": map.len(), "example": map.iter().next().map(|(k, v)| format!("{k} -> {v}"))}));
+        std::fs::write(&path, serde_json::to_string(&map).unwrap()).expect("write digests");
+        finish(&args, "mon_par(serial)", RULE, rep, t0);
+    }
+    let path = compare.expect("--emit or --compare");
+    if !par_build {
+        rep.harness_errors.push("--compare must be run with the build that has the `par` feature".into());
+        finish(&args, "mon_par(par)", RULE, rep, t0);
+    }
+    let map: BTreeMap<String, String> = serde_json::from_str(&std::fs::read_to_string(&path).expect("digest file from the serial run")).expect("digest json");
+    let reps = args.pick(2usize, 12);
+    let threads: Vec<usize> = if args.quick() { vec![1, 2, 3, 5, 7, 8, 16, 17, 64] } else { THREADS.to_vec() };
+    // background CPU hog, toggled per repetition, to perturb rayon's work stealing
+    let hog_on = Arc::new(AtomicBool::new(false));
+    let stop = Arc::new(AtomicBool::new(false));
+    let hogs: Vec<_> = (0..8)
+        .map(|_| {
+            let (on, st) = (hog_on.clone(), stop.clone());
+            std::thread::spawn(move || {
+                let mut x = 1u64;
+                while !st.load(Ordering::Relaxed) {
+                    if on.load(Ordering::Relaxed) {
+                        for _ in 0..10_000 {
+                            x = x.wrapping_mul(6364136223846793005).wrapping_add(1442695040888963407);
+                        }
+                        std::hint::black_box(x);
+                    } else {
+                        std::thread::sleep(std::time::Duration::from_millis(2));
+                    }
+                }
+            })
+        })
+        .collect();
+    #[cfg(feature = "par")]
+    {
+        for &t in &threads {
+            let pool = rayon::ThreadPoolBuilder::new().num_threads(t).stack_size(64 << 20).build().expect("pool");
+            rep.class(&format!("pool size {t}"));
+            for r in 0..reps {
+                hog_on.store(r % 2 == 1, Ordering::Relaxed);
+                rep.class(if r % 2 == 1 { "repetition with background CPU hog" } else { "repetition on an idle pool" });
+                for op in &all {
+                    for &s in &op.shapes {
+                        // big shapes only on a subset of the repetitions
+                        if r >= 2 && s > 4096 {
+                            continue;
+                        }
+                        let key = format!("{}#{}", op.name, s);
+                        let Some(want) = map.get(&key) else {
+                            rep.harness_errors.push(format!("no serial digest for {key}"));
+                            continue;
+                        };
+                        let mut rng = item_rng(args.seed, &key);
+                        rep.class_if(s > 0 && s < t, "input shorter than the pool");
+                        rep.class_if(t & (t - 1) != 0, "pool size not a power of two");
+                        match guard(|| pool.install(|| (op.run)(&mut rng, s))) {
+                            Ok(out) => {
+                                rep.eval(digest(&(key.as_str(), t, r)), s > 0);
+                                rep.op(op.name);
+                                let got = format!("{:016x}:{}", digest_bytes(&out), out.len());
+                                if &got != want {
+                                    rep.violation(format!("par/{}/differs-from-serial", op.name), json!({"operation": op.name, "shape": s, "threads": t, "repetition": r, "serial": want, "parallel": got}));
+                                }
+                            },
+                            Err(p) => rep.violation(format!("par/{}/panic", op.name), json!({"operation": op.name, "shape": s, "threads": t, "panic": p.msg, "at": p.site()})),
+                        }
+                    }
+                }
+            }
+        }
+    }
+    stop.store(true, Ordering::Relaxed);
+    for h in hogs {
+        let _ = h.join();
+    }
+    let _ = &threads;
+    let _ = reps;
+    rep.require("input shorter than the pool");
+    rep.require("pool size not a power of two");
+    rep.require("repetition with background CPU hog");
+    rep.sample("par", || json!({"operations": all.iter().map(|o| o.name).collect::<Vec<_>>(), "pool_sizes": threads, "repetitions": reps}));
+    finish(&args, "mon_par(par)", RULE, rep, t0)
 }
